@@ -36,8 +36,12 @@ int main(int argc, char** argv)
     bool seq = argc > 2 && !strcmp(argv[2], "seq");
     int np = E.np, rank = E.rank;
     int ncases = seq ? (E.thorough ? 200 : 50) : (E.thorough ? 80 : 24);
-    for (int it = 0; it < ncases; it++)
+    // after the regular cases (their numbers stay): the same kind of system with right-hand side and start scaled by 2^-40
+    // (entries near 1e-12, residual entries below 1e-16 long before convergence)
+    int nextra = ncases / 3;
+    for (int it0 = 0; it0 < ncases + nextra; it0++)
     {
+        bool tiny = it0 >= ncases; int it = tiny ? (it0 - ncases) * 3 : it0;
         int cap = 2 + std::min(60, 2 * it);
         int n = std::max(seq ? 1 : np, g.range(1, cap));
         int method = g.below(2);                 // 0 CG (SPD), 1 BiCGStab (non-symmetric)
@@ -49,6 +53,7 @@ int main(int argc, char** argv)
         if (start == 2) { b.assign(n, 0.0); for (auto& v : x0) v = (g.unit() - 0.5) * 2; }
         else { b = g.coin() ? Axs : std::vector<double>(); if (b.empty()) { b.resize(n); for (auto& v : b) v = (g.unit() - 0.5) * 4; }
                if (start == 1 && b == Axs) x0 = xs; else if (start == 3) x0.assign(n, 0.0); else for (auto& v : x0) v = (g.unit() - 0.5) * 2; }
+        if (tiny) { double sc = std::ldexp(1.0, -40); for (auto& v : xs) v *= sc; for (auto& v : x0) v *= sc; for (auto& v : b) v *= sc; }
         double tol = g.coin() ? 1e-5 : (g.coin() ? 1e-9 : 1e-2); int max_iter = g.coin(1, 3) ? g.range(1, 6) : -1;
         char ctx[128]; snprintf(ctx, 128, "%s/%s/start%d/n%d/maxit%d", seq ? "seq" : "par", method ? "bicgstab" : "cg", start, n, max_iter);
         E.about(ctx);
@@ -129,6 +134,7 @@ int main(int argc, char** argv)
         if (it % 3 == 0) {
             int kind = g.below(4);       // 0 finite, 1 NaN, 2 +Inf, 3 tiny entries
             std::vector<double> u(n), w(n); for (auto& v : u) v = g.range(-9, 9) * 0.5; for (auto& v : w) v = g.range(-9, 9) * 0.25;
+            if (tiny) for (auto& v : u) v *= std::ldexp(1.0, -60);      // every entry below 1e-16: still a vector with a norm
             int pos = g.below(n); if (kind == 1) u[pos] = NAN; if (kind == 2) u[pos] = INFINITY; if (kind == 3) u[pos] = 1e-20;
             double nrm, ip;
             if (seq) { Vector a(n), bq(n); for (int i = 0; i < n; i++) { a.values[i] = u[i]; bq.values[i] = w[i]; } nrm = a.norm(2); ip = a.inner_product(bq); }
